@@ -268,34 +268,36 @@ Inductive rrun :=
 Definition rrun_cfg (x : rrun) : cfg := match x with ResumeAsClient c _ _ | ResumeAsServer c _ => c end.
 Definition rrun_out (x : rrun) : outcome :=
   match x with ResumeAsClient c e rp => client_resume c e rp | ResumeAsServer c f => server_resume c f end.
+Definition rrun_is_client (x : rrun) : bool := match x with ResumeAsClient _ _ _ => true | _ => false end.
 (* the entry that was resumed, if the handshake got that far *)
 Definition rrun_entry (x : rrun) : option sentry :=
   match x with ResumeAsClient _ e _ => Some e | ResumeAsServer _ f => f end.
 
-Definition resumed_good (c : cfg) (e : sentry) (r : result) : Prop :=
+Definition resumed_good (client : bool) (c : cfg) (e : sentry) (r : result) : Prop :=
   r_enc r = g_encrypted r /\
   r_auth r = entry_authenticated e /\
   g_ran r = [] /\
   (g_encrypted r = true -> usable_key e = true /\ g_key r = Some KCached) /\
   (g_encrypted r = false -> g_key r = None) /\
   (needs_protection c = true -> g_encrypted r = true) /\
-  (c_auth c = Rq -> entry_authenticated e = true).
+  (client = true -> c_auth c = Rq -> entry_authenticated e = true).
 
-Lemma resumed_result_good c e enc r :
-  resumed_result c e enc = Ok r -> (enc = true -> usable_key e = true) -> resumed_good c e r.
+Lemma resumed_result_good client c e enc r :
+  resumed_result client c e enc = Ok r -> (enc = true -> usable_key e = true) -> resumed_good client c e r.
 Proof.
   unfold resumed_result. intros H Hu.
   destruct (negb enc && needs_protection c) eqn:E1; [discriminate|].
-  destruct (is_rq (c_auth c) && negb (entry_authenticated e)) eqn:E2; [discriminate|].
+  destruct (client && is_rq (c_auth c) && negb (entry_authenticated e)) eqn:E2; [discriminate|].
   inversion H; subst; simpl. unfold resumed_good; simpl.
   split; [reflexivity|]. split; [reflexivity|]. split; [reflexivity|]. split; [|split; [|split]].
   - intro E. rewrite E. auto.
   - intro E. rewrite E. reflexivity.
   - intro P. rewrite P in E1. destruct enc; [reflexivity | discriminate].
-  - intro Hc. rewrite Hc in E2. simpl in E2. apply negb_false_iff in E2. exact E2.
+  - intros Hcl Hc. rewrite Hcl, Hc in E2. simpl in E2. apply negb_false_iff in E2. exact E2.
 Qed.
 
-Lemma rrun_ok x r : rrun_out x = Ok r -> exists e, rrun_entry x = Some e /\ resumed_good (rrun_cfg x) e r.
+Lemma rrun_ok x r : rrun_out x = Ok r ->
+  exists e, rrun_entry x = Some e /\ resumed_good (rrun_is_client x) (rrun_cfg x) e r.
 Proof.
   destruct x as [c e rp | c f]; simpl; intro H.
   - exists e. split; [reflexivity|]. unfold client_resume in H.
@@ -313,13 +315,21 @@ Proof.
     apply resumed_result_good in H; auto.
 Qed.
 
-Lemma resumed_auth_required x r :
-  rrun_out x = Ok r -> c_auth (rrun_cfg x) = Rq ->
-  exists e, rrun_entry x = Some e /\ e_authed e = Some true.
+Lemma resumed_auth_required_client c e rp r :
+  client_resume c e rp = Ok r -> c_auth c = Rq -> e_authed e = Some true.
 Proof.
-  intros H Hc. destruct (rrun_ok _ _ H) as [e [He G]]. exists e. split; [assumption|].
-  destruct G as (_ & _ & _ & _ & _ & _ & A). specialize (A Hc).
+  intros H Hc. destruct (rrun_ok (ResumeAsClient c e rp) r H) as [e' [He G]].
+  simpl in He. inversion He; subst e'.
+  destruct G as (_ & _ & _ & _ & _ & _ & A). specialize (A eq_refl Hc).
   unfold entry_authenticated in A. destruct (e_authed e) as [[|]|]; try discriminate. reflexivity.
+Qed.
+
+(* the server side does not enforce it at the handshake: witness *)
+Lemma resumed_auth_required_server_refuted :
+  exists c e r, server_resume c (Some e) = Ok r /\ c_auth c = Rq /\ e_authed e = Some false.
+Proof.
+  exists (mkCfg Rq Op Op [mCTB] [cAES] true), (mkE (EK32 true) (Some false)).
+  eexists. split; [vm_compute; reflexivity | split; reflexivity].
 Qed.
 
 Lemma resumed_enc_required x r :
